@@ -609,6 +609,11 @@ def preprocess_observation(
             observation = apply_image_normalization(observation, observation_space)
 
         space_shape = observation_space.shape
+        if len(space_shape) == 0:
+            # A scalar Box is one input feature for the networks (spaces.flatdim == 1):
+            # give it an explicit feature axis so that a batch is (batch, 1), not (batch,)
+            observation = observation.unsqueeze(-1)
+            space_shape = (1,)
 
     elif isinstance(observation_space, spaces.Discrete):
         # One hot encoding of discrete observation
